@@ -81,44 +81,111 @@ func methodsOf(files map[string]*ast.File) map[methodKey]*ast.FuncDecl {
 	return res
 }
 
-// the statements of cpu.Reset and of the snapshot provider, as constructors of Verif.Impl.ResetStep /
-// Verif.Impl.ProvStep; anything not in the table becomes `.unknown "<text>"`
-var resetTable = map[string]string{
-	"c.cycleCount = 0":        ".zeroCycles",
-	"c.Flags = 0":             ".zeroFlags",
-	"c.X = 0":                 ".zeroX",
-	"c.A = 0":                 ".zeroA",
-	"c.Y = 0":                 ".zeroY",
-	"c.PC = 0":                ".zeroPC",
-	"c.SP = 0xFF":             ".spFF",
-	"c.Mem.ClearStatistics()": ".clearStats",
+// Statements are classified by what they DO, not by how the receiver or a field is called, so that renaming a
+// variable or a struct field, or swapping independent statements, does not change the facts:
+//   calls are recognised by the method called (`<anything>.RestoreSnapshot()`), assignments by the last
+//   selector of the left-hand side and the shape of the right-hand side.  Everything else is `.unknown "<text>"`.
+
+func lastSel(e string) string {
+	if i := strings.LastIndex(e, "."); i >= 0 {
+		return e[i+1:]
+	}
+	return e
 }
 
-var provTable = map[string]string{
-	"c.cpu.Mem.RestoreSnapshot()":               ".restore",
-	"c.cpu.Reset()":                             ".reset",
-	"cpu.Reset()":                               ".reset",
-	"cpu.Mem.TakeSnapshot()":                    ".takeSnap",
-	"c.ce.placeholderWrapper = c.p":             ".usePlaceholder",
-	"if c.ce.placeholderWrapper != nil {":       ".ifPlaceholder",
-	"c.ce.placeholderWrapper.SetWriteFunc(nil)": ".clearHandler",
-	"}":                 ".endIf",
-	"return c.cpu, nil": ".ret",
-	"placeholder = nil": ".noPlaceholder",
-	"if c.trapAddress != emuconfig.IllegalTrapAddress {":                 ".ifTrap",
-	"placeholder = memory.NewPlaceholderWrapper(cpu.Mem, c.trapAddress)": ".newPlaceholder",
-	"cpu.Mem = placeholder.Wrapper":                                      ".wrapMem",
-	"return &<composite>, nil":                                           ".ret",
+func pureRef(e string) bool { // an identifier or a chain of field selectors: no call, no operator
+	if e == "" {
+		return false
+	}
+	for _, c := range e {
+		if !(c == '.' || c == '_' || c >= '0' && c <= '9' || c >= 'a' && c <= 'z' || c >= 'A' && c <= 'Z') {
+			return false
+		}
+	}
+	return true
 }
 
-func leanSteps(stmts []string, table map[string]string) string {
+var cpuStateFields = map[string]bool{"A": true, "X": true, "Y": true, "SP": true, "PC": true, "Flags": true, "cycleCount": true}
+
+func classifyReset(st string) string {
+	if strings.HasSuffix(st, ".ClearStatistics()") && pureRef(strings.TrimSuffix(st, "()")) {
+		return ".clearStats"
+	}
+	if lr := strings.SplitN(st, " = ", 2); len(lr) == 2 && pureRef(lr[0]) {
+		zero := lr[1] == "0" || lr[1] == "0x00" || lr[1] == "0x0000"
+		switch lastSel(lr[0]) {
+		case "cycleCount":
+			if zero {
+				return ".zeroCycles"
+			}
+		case "Flags":
+			if zero {
+				return ".zeroFlags"
+			}
+		case "X":
+			if zero {
+				return ".zeroX"
+			}
+		case "A":
+			if zero {
+				return ".zeroA"
+			}
+		case "Y":
+			if zero {
+				return ".zeroY"
+			}
+		case "PC":
+			if zero {
+				return ".zeroPC"
+			}
+		case "SP":
+			if lr[1] == "0xFF" || lr[1] == "0xff" || lr[1] == "255" {
+				return ".spFF"
+			}
+		}
+	}
+	return fmt.Sprintf(".unknown %q", st)
+}
+
+func classifyProv(st string) string {
+	switch {
+	case st == "}":
+		return ".endIf"
+	case strings.HasPrefix(st, "return "):
+		return ".ret"
+	case strings.HasPrefix(st, "if ") && strings.HasSuffix(st, " != nil {") && pureRef(strings.TrimSuffix(strings.TrimPrefix(st, "if "), " != nil {")):
+		return ".ifPlaceholder"
+	case strings.HasPrefix(st, "if ") && strings.HasSuffix(st, " != emuconfig.IllegalTrapAddress {") && pureRef(strings.TrimSuffix(strings.TrimPrefix(st, "if "), " != emuconfig.IllegalTrapAddress {")):
+		return ".ifTrap"
+	case strings.HasSuffix(st, ".RestoreSnapshot()") && pureRef(strings.TrimSuffix(st, "()")):
+		return ".restore"
+	case strings.HasSuffix(st, ".TakeSnapshot()") && pureRef(strings.TrimSuffix(st, "()")):
+		return ".takeSnap"
+	case strings.HasSuffix(st, ".Reset()") && pureRef(strings.TrimSuffix(st, "()")):
+		return ".reset"
+	case strings.HasSuffix(st, ".SetWriteFunc(nil)") && pureRef(strings.TrimSuffix(st, ".SetWriteFunc(nil)")):
+		return ".clearHandler"
+	}
+	if lr := strings.SplitN(st, " = ", 2); len(lr) == 2 && pureRef(lr[0]) && !cpuStateFields[lastSel(lr[0])] {
+		switch {
+		case strings.HasPrefix(lr[1], "memory.NewPlaceholderWrapper("):
+			return ".newPlaceholder"
+		case lr[1] == "nil" || lr[1] == "<zero>":
+			return ".noPlaceholder"
+		case pureRef(lr[1]) && lastSel(lr[0]) == "Mem" && lastSel(lr[1]) == "Wrapper":
+			return ".wrapMem"
+		case pureRef(lr[1]) && lastSel(lr[0]) != "Mem":
+			// pointer bookkeeping: which wrapper object the executor talks to
+			return ".usePlaceholder"
+		}
+	}
+	return fmt.Sprintf(".unknown %q", st)
+}
+
+func leanSteps(stmts []string, classify func(string) string) string {
 	parts := []string{}
 	for _, s := range stmts {
-		if c, ok := table[s]; ok {
-			parts = append(parts, c)
-		} else {
-			parts = append(parts, ".unknown "+fmt.Sprintf("%q", s))
-		}
+		parts = append(parts, classify(s))
 	}
 	return "[" + strings.Join(parts, ", ") + "]"
 }
@@ -131,19 +198,19 @@ func doFlow(repo, outDir string) {
 	cpuM := methodsOf(parseDir(filepath.Join(repo, "cpu")))
 	ceM := methodsOf(parseDir(filepath.Join(repo, "caseexec")))
 	if fd, found := cpuM[methodKey{"CPU6502", "Reset"}]; found {
-		fmt.Fprintf(&b, "/-- the statements of cpu.CPU6502.Reset, in order -/\ndef resetSteps : List ResetStep := %s\n\n", leanSteps(flatStmts(fd.Body), resetTable))
+		fmt.Fprintf(&b, "/-- the statements of cpu.CPU6502.Reset, in order -/\ndef resetSteps : List ResetStep := %s\n\n", leanSteps(flatStmts(fd.Body), classifyReset))
 	} else {
 		fail("flow", "CPU6502.Reset not found")
 		ok = false
 	}
 	if fd, found := ceM[methodKey{"snapshotCpuProvider", "NewCpu"}]; found {
-		fmt.Fprintf(&b, "/-- the statements of caseexec.snapshotCpuProvider.NewCpu, in order -/\ndef snapshotNewCpuSteps : List ProvStep := %s\n\n", leanSteps(flatStmts(fd.Body), provTable))
+		fmt.Fprintf(&b, "/-- the statements of caseexec.snapshotCpuProvider.NewCpu, in order -/\ndef snapshotNewCpuSteps : List ProvStep := %s\n\n", leanSteps(flatStmts(fd.Body), classifyProv))
 	} else {
 		fail("flow", "snapshotCpuProvider.NewCpu not found")
 		ok = false
 	}
 	if fd, found := ceM[methodKey{"", "newSnapshotProvider"}]; found {
-		fmt.Fprintf(&b, "/-- the statements of caseexec.newSnapshotProvider, in order -/\ndef newSnapshotProviderSteps : List ProvStep := %s\n\n", leanSteps(flatStmts(fd.Body), provTable))
+		fmt.Fprintf(&b, "/-- the statements of caseexec.newSnapshotProvider, in order -/\ndef newSnapshotProviderSteps : List ProvStep := %s\n\n", leanSteps(flatStmts(fd.Body), classifyProv))
 	} else {
 		fail("flow", "newSnapshotProvider not found")
 		ok = false
